@@ -34,7 +34,8 @@ type Case struct {
 	Doc   string       `json:"doc,omitempty"`   // unmarshal: hex JSON document
 	Alt   []string     `json:"alt,omitempty"`   // order: hex, the same abstract paths written in another order / grouping
 	Docs  []string     `json:"docs,omitempty"`  // cache: hex JSON documents
-	Hist  [][2]int     `json:"hist,omitempty"`  // cache: (receive buffer, document) per step of the history
+	Hist  [][2]int     `json:"hist,omitempty"`  // cache: (receive buffer, document) per step; mhist: (mask, api) per step
+	Masks []MaskSpec   `json:"masks,omitempty"` // mhist: the masks of a marshal history
 }
 
 func (c *Case) paths() []string {
@@ -55,6 +56,18 @@ func (c *Case) human() map[string]interface{} {
 	}
 	if len(c.Steps) > 0 {
 		m["steps"] = c.Steps
+	}
+	if len(c.Masks) > 0 {
+		var ms []interface{}
+		for _, x := range c.Masks {
+			var ps []string
+			for _, p := range x.Paths {
+				ps = append(ps, vl.UnHex(p))
+			}
+			ms = append(ms, map[string]interface{}{"black": x.Black, "paths": ps})
+		}
+		m["masks"] = ms
+		m["history(mask,api 0=MarshalJSON 1=Marshal 2=json.Marshal)"] = c.Hist
 	}
 	if len(c.Docs) > 0 {
 		var ds []string
@@ -98,6 +111,10 @@ func check(c *Case) []fail {
 	}
 	if c.Op == "cache" {
 		return checkCache(c)
+	}
+	if c.Op == "mhist" {
+		fs, _ := checkMHist(c)
+		return fs
 	}
 	m, out, pk := w.newMask(root, c.Black, c.paths())
 	pan("NewFieldMask", pk)
@@ -813,6 +830,9 @@ func run(dir string, seed uint64, tier string) error {
 			if s%30 == 29 {
 				rn.cacheHistory(w)
 			}
+			if s%15 == 7 {
+				rn.marshalHistory(w, g)
+			}
 		}
 	}
 	rn.out.Stats["child-process-getpath"] = childSpawns
@@ -955,6 +975,8 @@ func main() {
 		err = replay(*file)
 	case "child":
 		err = child()
+	case "childmhist":
+		err = childMHist()
 	case "childcache":
 		inChild = true
 		var c Case
